@@ -190,7 +190,7 @@ def generate(rnd, tier):
         elif r < 0.52:
             op = {"op": "group_metric", "obj": oi, "name": rnd.choice(GROUP_METRICS), "thr": gen_thr(rnd)}
         elif r < 0.62:
-            op = {"op": "groupwise", "obj": oi, "metric": rnd.choice(["fnr", "fpr", "tpr", "cm_flat", "n_hard", "threshold_at_fnr", "raising"]),
+            op = {"op": "groupwise", "obj": oi, "metric": rnd.choice(["fnr", "fpr", "tpr", "cm_flat", "n_hard", "threshold_at_fnr", "raising", "guarded_rate", "guarded_rate"]),
                   "thr": gen_thr(rnd), "fail_at": rnd.randint(0, 4)}
         elif r < 0.68:
             op = {"op": "swap", "obj": oi}
@@ -418,6 +418,9 @@ def _metric_callable(name):
         return lambda s, threshold: np.asarray(s.cm(threshold)).reshape(np.shape(threshold) + (4,))
     if name == "n_hard":
         return lambda s, threshold: np.asarray([s.nb_hard_pos, s.nb_hard_neg])
+    if name == "guarded_rate":
+        # a guard that returns a Python int for a group without positives and a float rate otherwise
+        return lambda s, threshold: 0 if s.nb_all_pos == 0 else float(np.mean(np.asarray(s.fnr(threshold), dtype=float))) + 0.25
     return name
 
 
@@ -456,6 +459,7 @@ def execute(scn, ctx):
             probe("ties_across_groups")
         audit(o, models[-1], viol, {"phase": "construction"}, "after construction", full=False)
 
+    touched = set()
     held = []  # results handed out earlier (group Scores, matrices, samples): later calls must not change them
 
     def hold(step_, what, value):
@@ -494,7 +498,8 @@ def execute(scn, ctx):
             if not model.groups:
                 continue
             g = model.groups[op["which"] % len(model.groups)]
-            warm = g in getattr(o, "_grouped_scores", {})
+            warm = (id(o), repr(g)) in touched  # own bookkeeping: the library's cache is its private business
+            touched.add((id(o), repr(g)))
             probe("cache_hit" if warm else "cache_fill")
             if fl:
                 twin = mk_twin()
@@ -779,7 +784,14 @@ def execute_stat(scn, ctx):
     tags = {"method": cfg["sampling_method"], "strat": cfg.get("stratified_sampling"), "stat": True}
     viol = []
     for i in range(Mn):
-        s = o.bootstrap_sample(config)
+        try:
+            s = o.bootstrap_sample(config)
+        except Exception as e:  # noqa: BLE001
+            info = seam.end_op()
+            return {"violations": [{"invariant": "C12.sample_raises", "tags": tags,
+                                    "detail": f"bootstrap_sample raised {type(e).__name__}: {e} (distribution scenario, sample {i})"}],
+                    "trace": [["stat", tags, i, "raised"]], "stats": {"ops": i, "draws": info["draws"], "forced": 0, "faults": {}, "probes": {}},
+                    "signature": "stat-raised", "nontrivial": True, "states": []}
         ip = np.searchsorted(up, s.pos)
         ineg = np.searchsorted(un, s.neg)
         if not (np.array_equal(lp[ip], s.pos_groups) and np.array_equal(ln[ineg], s.neg_groups)) and not viol:
